@@ -26,7 +26,7 @@ func TestSweep(t *testing.T) {
 					for _, u := range uses {
 						for n := 0; n <= C*K+1; n++ {
 							for rs := -1; rs <= K; rs++ {
-								ops := []Op{{Kind: "get"}, {Kind: u, N: n}}
+								ops := []Op{{Kind: "get", N: (n + rs + 1) % 2}, {Kind: u, N: n}}
 								if rs >= 0 {
 									ops = append(ops, Op{Kind: "reslice", N: rs})
 								}
